@@ -1,1 +1,85 @@
+/-
+  C17 — online vs a conforming DC: faithful requests, correct results, sync = async.
+  The sync and async public functions share one model function each (they differ only in `await`),
+  so "sync = async" holds of the model by construction; the correspondence check holds both
+  implementations to that single model.
+-/
 import DpapiNg.Model.Online
+import DpapiNg.Properties.C13
+import DpapiNg.Properties.C01
+namespace DpapiNg.C17
+open DpapiNg DpapiNg.Rpc DpapiNg.RpcClient DpapiNg.Epm DpapiNg.Client DpapiNg.Online DpapiNg.Blob
+
+/-- unprotect asks the DC for exactly the key the blob names: the target SD derived from the blob's SID,
+    the blob's root key id and (L0, L1, L2) -/
+theorem getKey_request_unprotect (C : Crypto) (s s' : CState) (data : Bytes) (req : KeyRequest)
+    (h : unprotectBegin C s data = (.needsNetwork req, s')) :
+    ∃ b sd, blobUnpack data = .ok b ∧ targetSdOf b.sid = .ok sd ∧
+      req = ⟨sd, some b.keyId.rootKeyId, b.keyId.l0, b.keyId.l1, b.keyId.l2, some b.keyId.domainName⟩ := by
+  unfold unprotectBegin at h
+  split at h
+  · cases h
+  · rename_i b hb
+    split at h
+    · cases h
+    · rename_i sd hsd
+      split at h
+      · cases h
+      · simp only [Prod.mk.injEq, Outcome.needsNetwork.injEq] at h
+        exact ⟨b, sd, hb, hsd, h.1.symm⟩
+      · rename_i env s1 hget
+        simp only [Prod.mk.injEq] at h
+        cases hd : decryptBlob C b env.payload <;> simp [ofR, hd] at h
+
+/-- protect asks for the current key: (−1, −1, −1) with the optional root key id -/
+theorem getKey_request_protect (C : Crypto) (s s' : CState) (data sid : Bytes) (rk dom : Option Bytes) (t : Nat) (d : Draws) (req : KeyRequest)
+    (h : protectBegin C s data sid rk dom t d = (.needsNetwork req, s')) :
+    ∃ sd, targetSdOf sid = .ok sd ∧ req = ⟨sd, rk, -1, -1, -1, dom⟩ := by
+  unfold protectBegin at h
+  split at h
+  · cases h
+  · rename_i sd hsd
+    simp only at h
+    split at h
+    · cases h
+    · simp only [Prod.mk.injEq, Outcome.needsNetwork.injEq] at h
+      exact ⟨sd, hsd, h.1.symm⟩
+    · rename_i env hg
+      simp only [Prod.mk.injEq] at h
+      cases he : encryptBlob C data env sid d <;> simp [ofR, he] at h
+
+/-- the GetKey call is sealed at PKT_PRIVACY on context 0, opnum 0, and carries the interface verification
+    trailer [PCONTEXT ISD_KEY NDR64, END]: exactly stub ‖ pad4 ‖ vt ‖ pad16 is the region handed to the
+    security context -/
+theorem request_is_sealed_with_vt (auth : Auth) (stub vt : Bytes) :
+    ∃ pad, (createRequest (some auth) 0 0 stub (some vt)).1.secTrailer = some ⟨auth.provider, 6, pad, 0, Py.zeros auth.headerLen⟩ ∧
+      (createRequest (some auth) 0 0 stub (some vt)).2 = some (24, 24 + (C13.sealedBody stub (some vt)).length) ∧
+      (createRequest (some auth) 0 0 stub (some vt)).1.body = .request (C13.sealedBody stub (some vt)).length 0 0 none (C13.sealedBody stub (some vt)) ∧
+      C13.sealedBody stub (some vt) = stub ++ Py.zeros (Py.negMod stub.length 4) ++ vt ++ Py.zeros pad ∧ pad < 16 := by
+  obtain ⟨pad, h1, h2, _, h4, _⟩ := C13.request_layout auth 0 0 stub (some vt)
+  refine ⟨pad, by rw [h1], by rw [h1], by rw [h1], (h4 vt rfl).1, h2⟩
+
+/-- the verification trailer the client attaches: one PCONTEXT command for (ISD_KEY v1.0, NDR64 v1.0) with the END flag -/
+theorem verification_trailer_value : verificationTrailer = [⟨2, 0x4000, .pcontext ⟨uuidIsdKey, 1, 0⟩ ⟨uuidNdr64, 1, 0⟩⟩] := rfl
+
+/-- the ept_map request: tower ISD_KEY v1.0 / NDR v2.0 / RPC connection-oriented / TCP 135 / IP 0.0.0.0, no object, max_towers 4 -/
+theorem eptMap_request :
+    eptMapIsdKey = ⟨none, [.uuid uuidIsdKey 1 0, .uuid uuidNdr 2 0, .rpcCo 0, .tcp 135, .ip 0], none, 4⟩ ∧
+    epmContexts = [⟨0, ⟨uuidEpm, 3, 0⟩, [⟨uuidNdr64, 1, 0⟩]⟩] ∧
+    isdKeyContexts = [⟨0, ⟨uuidIsdKey, 1, 0⟩, [⟨uuidNdr64, 1, 0⟩]⟩, ⟨1, ⟨uuidIsdKey, 1, 0⟩, [⟨uuidBtfn, 1, 0⟩]⟩] := ⟨rfl, rfl, rfl⟩
+
+/-- once a (conforming) DC has replied, the plaintext returned is the decryption under that reply: combined
+    with C01 (`decrypt_encrypt` and its corollaries) every position decrypts correctly, for callers who
+    receive seed keys; a caller who only receives the group public key gets an error, never wrong bytes -/
+theorem online_unprotect_correct (C : Crypto) (s : CState) (data : Bytes) (reply : Gkdi.Envelope) (b : Blob) (sd pt : Bytes)
+    (hb : blobUnpack data = .ok b) (hsd : targetSdOf b.sid = .ok sd) (hd : decryptBlob C b reply = .ok pt) :
+    (unprotectFinish C s data reply).1 = .done pt := by
+  unfold unprotectFinish
+  simp [hb, hsd, hd, ofR]
+
+theorem online_unprotect_public_key_is_error (C : Crypto) (b : Blob) (reply : Gkdi.Envelope) (hp : reply.isPublicKey = true) :
+    decryptBlob C b reply = .error .valueError := by
+  unfold decryptBlob Gkdi.getKek
+  simp [hp, Bind.bind, Except.bind]
+
+end DpapiNg.C17
